@@ -66,3 +66,66 @@ func ruleImportSet(c *core.Ctx) {
 		}
 	}
 }
+
+// ruleDeclSet (A-DECLSET): (*codegen.Package).AddDecl interpreted on pairs of declarations. The generator allocates the alias of a
+// referenced anyOf branch (`type X_0 = Foo`) afresh on every visit of the branch and records it nowhere else, so AddDecl is the only
+// place that keeps a second, EQUAL alias out of the file ("X_0 redeclared in this block"): two distinct objects with the same
+// content must be one declaration, two different aliases two.
+func ruleDeclSet(c *core.Ctx) {
+	type outT struct{ n int }
+	cases := []struct {
+		name       string
+		sameAlias  bool
+		sameObject bool
+		want       int
+	}{
+		{"two equal aliases (distinct objects)", true, false, 1},
+		{"the same alias object twice", true, true, 1},
+		{"two different aliases", false, false, 2},
+	}
+	for _, cs := range cases {
+		runs, complete := absint.Explore(c.Prog, 64, func(m *absint.Machine) { gen.InstallStubs(m) }, func(m *absint.Machine) any {
+			g := gen.New(m)
+			pkg := g.Obj("pkg/codegen", "Package", map[string]gen.V{})
+			target := g.Raw("name of the aliased type", true)
+			mk := func(alias string) gen.V {
+				return g.PtrIface("pkg/codegen", "AliasType", g.Obj("pkg/codegen", "AliasType", map[string]gen.V{"Alias": absint.Lit(alias), "Name": target}))
+			}
+			d1 := mk("Branch_0")
+			d2 := d1
+			if !cs.sameObject {
+				if cs.sameAlias {
+					d2 = mk("Branch_0")
+				} else {
+					d2 = mk("Branch_1")
+				}
+			}
+			g.Method("pkg/codegen", "Package", "AddDecl", pkg, d1)
+			g.Method("pkg/codegen", "Package", "AddDecl", pkg, d2)
+			decls := m.FieldOf(g.Type("pkg/codegen", "Package"), *pkg.(absint.Ptr).P, "Decls")
+			n := -1
+			if sl, ok := decls.(absint.Slice); ok {
+				n = sl.Len()
+			}
+			return &outT{n}
+		})
+		key := "AddDecl twice: " + cs.name
+		noteRuns(c, runs)
+		if !complete {
+			c.Undecided("A-DECLSET", "(*pkg/codegen.Package).AddDecl", key, "", "fork budget")
+			continue
+		}
+		for _, r := range runs {
+			if r.Err != nil {
+				c.Undecided("A-DECLSET", "(*pkg/codegen.Package).AddDecl", key, r.Err.Pos, r.Err.Error())
+				continue
+			}
+			o := r.Out.(*outT)
+			if o.n == cs.want {
+				c.Pass("A-DECLSET", "(*pkg/codegen.Package).AddDecl", fmt.Sprintf("%s world%v", key, r.Script), fmt.Sprintf("%d declaration(s) registered", o.n))
+			} else {
+				c.Fail("A-DECLSET", "(*pkg/codegen.Package).AddDecl", key, "", fmt.Sprintf("after adding %s the package holds %d declaration(s), expected %d: an alias that the generator builds anew on every visit of a referenced anyOf branch would be emitted twice (\"redeclared in this block\"), or a needed declaration dropped", cs.name, o.n, cs.want), nil)
+			}
+		}
+	}
+}
